@@ -20,6 +20,7 @@ def tasks(tier):
     S = "contracts.series"
     t = [(S, "free_step", dict(norb=2, nu=1, nd=1, nchol=1)), (S, "free_step", dict(norb=2, nu=2, nd=1, nchol=1)), (S, "free_bookkeeping", {}),
          (S, "taylor", dict(n_exp_terms=6)), (S, "taylor", dict(n_exp_terms=2)), (S, "taylor", dict(n_exp_terms=10)), ("contracts.sampler_eq", "free_block", {}), (S, "c05_canary", {})]
+    t += [("contracts.allsizes", "taylor_allsizes", dict(n_exp_terms=6)), ("contracts.allsizes", "taylor_allsizes", dict(n_exp_terms=10))]      # ALL norb / nocc (tensor normal form, scan unrolled)
     if tier == "thorough":
         t += [(S, "free_step", dict(norb=2, nu=1, nd=1, nchol=2)), (S, "free_step", dict(norb=3, nu=2, nd=1, nchol=1))]
     return t
